@@ -5,6 +5,7 @@ package main
 
 import (
 	"bufio"
+	"context"
 	"encoding/json"
 	"errors"
 	"fmt"
@@ -786,7 +787,14 @@ type concTrial struct {
 
 func checkC12(c *Ctx) {
 	c.Res.Rule = "trials in fresh processes built with -race (so that the very first use of the package is concurrent): 8-48 goroutines x 30-200 calls of NewEvaluator / Process / rules.Evaluate / parser.Evaluate on their own Evaluator values, same and different rule texts (incl. lists of ints/doubles/strings, versions, nested paths), GOMAXPROCS in {1,2,4,16}, random Gosched; every result compared with the result of the same call made sequentially afterwards; any data race report is a violation; non-trivial = distinct trial configuration"
-	trials := c.budget(6, 60)
+	// the number of trials depends on the tier only (a widened search passes -n for case counts, not for process trials)
+	trials := 6
+	if c.Tier == "thorough" {
+		trials = 60
+		if c.N > 0 {
+			trials = 24
+		}
+	}
 	race := os.Getenv("VERIF_RACE_BIN")
 	if race == "" {
 		c.internal("VERIF_RACE_BIN not set (the -race build of the harness)")
@@ -795,9 +803,14 @@ func checkC12(c *Ctx) {
 	for i := 0; i < trials && !c.full(); i++ {
 		tr := concTrial{Seed: int64(c.R.U64() >> 1), Goroutines: 8 + c.R.Intn(41), Calls: 30 + c.R.Intn(171), Procs: pick(c.R, []int{1, 2, 4, 16}), SameRule: c.R.Chance(1, 3)}
 		b, _ := json.Marshal(tr)
-		cmd := exec.Command(race, "-child", "conc")
+		cctx, cancel := context.WithTimeout(context.Background(), 180*time.Second)
+		cmd := exec.CommandContext(cctx, race, "-child", "conc")
 		cmd.Env = append(os.Environ(), "GORACE=halt_on_error=1 exitcode=66", "VERIF_CONC="+string(b), "GOMAXPROCS="+strconv.Itoa(tr.Procs))
 		out, err := cmd.CombinedOutput()
+		if cctx.Err() != nil {
+			out = append(out, []byte("\nTRIAL DID NOT FINISH WITHIN 180 s (deadlock or livelock under concurrency)")...)
+		}
+		cancel()
 		c.Res.Evaluations += tr.Goroutines * tr.Calls
 		c.nontrivial(string(b))
 		c.count(fmt.Sprintf("gomaxprocs_%d", tr.Procs))
@@ -843,6 +856,7 @@ func childConc() {
 		kind int
 		v    bool
 		e    string
+		d    string // LastDebugErr().Error() right after the call
 	}
 	nr := 1 + r.Intn(12)
 	if tr.SameRule {
@@ -867,20 +881,24 @@ func childConc() {
 			jobs[g] = append(jobs[g], &job{text: rulesT[i], obj: o.GoMap(), kind: r.Intn(3)})
 		}
 	}
-	run := func(j *job, ev *parser.Evaluator) (bool, string) {
+	run := func(j *job, ev *parser.Evaluator) (bool, string, string) {
 		switch j.kind {
 		case 0:
 			if ev == nil {
 				ev, _ = parser.NewEvaluator(j.text)
 			}
 			v, err := ev.Process(j.obj)
-			return v, errClass(err)
+			d := ""
+			if de := ev.LastDebugErr(); de != nil {
+				d = safeText(de)
+			}
+			return v, errClass(err), d
 		case 1:
 			func() { defer func() { recover() }() }()
 			v, e, _ := rulesEvaluateNoLog(j.text, j.obj)
-			return v, e
+			return v, e, ""
 		default:
-			return parser.Evaluate(j.text, j.obj), "-"
+			return parser.Evaluate(j.text, j.obj), "-", ""
 		}
 	}
 	var wg sync.WaitGroup
@@ -901,7 +919,7 @@ func childConc() {
 						evs[j.text] = ev
 					}
 				}
-				j.v, j.e = run(j, ev)
+				j.v, j.e, j.d = run(j, ev)
 				if lr.Chance(1, 5) {
 					runtime.Gosched()
 				}
@@ -913,10 +931,10 @@ func childConc() {
 	bad := 0
 	for g := range jobs {
 		for _, j := range jobs[g] {
-			v, e := run(j, nil)
-			if v != j.v || e != j.e {
+			v, e, d := run(j, nil)
+			if v != j.v || e != j.e || d != j.d {
 				if bad < 5 {
-					fmt.Printf("MISMATCH rule=%q concurrent=(%v,%s) alone=(%v,%s)\n", j.text, j.v, j.e, v, e)
+					fmt.Printf("MISMATCH rule=%q concurrent=(%v,%s,%s) alone=(%v,%s,%s)\n", j.text, j.v, j.e, j.d, v, e, d)
 				}
 				bad++
 			}
